@@ -452,6 +452,30 @@ Definition ec_thumb_input (crv : bytes) (x y size : N) : res bytes :=
 (* acme getKeyAuthorization: token '.' unpadded-b64url(thumbprint) *)
 Definition key_authorization (token thumb : bytes) : bytes := token ++ ch_dot :: b64url_encode thumb.
 
+(* ------------------------------------------------------------------ Verify / Decrypt around the primitives *)
+Definition e_crypto : N := 9.   (* ErrCryptoFailure *)
+
+(* JsonWebSignature.Verify for one signature: [verify input sig] is the primitive under the
+   verification key; the input is recomputed from the protected bytes as received *)
+Definition jws_verify (verify : bytes -> bytes -> bool) (o : jws_fields) : res bytes :=
+  if verify (signing_input (js_prot o) (js_payload o)) (js_sig o) then Ok (js_payload o) else Err e_crypto.
+
+(* JsonWebEncryption.Decrypt for one recipient, no compression: [unwrapk] is the key-management
+   primitive under the recipient key (RSA, AES key wrap, GCM key wrap, ECDH + KDF [+ unwrap]),
+   [open cek] the content AEAD.  Any primitive error becomes ErrCryptoFailure. *)
+Definition jwe_decrypt (unwrapk : bytes -> res bytes) (open : bytes -> bytes -> bytes -> bytes -> res bytes)
+           (nonce_size : N) (o : jwe_fields) (aad : option bytes) : res bytes :=
+  match unwrapk (je_key o) with
+  | Ok cek =>
+      match aead_decrypt nonce_size (open cek) (je_iv o) (je_ct o) (je_tag o) (aad_input (je_prot o) aad) with
+      | Ok p => Ok p
+      | Err _ => Err e_crypto
+      | Panic s => Panic s
+      end
+  | Err _ => Err e_crypto
+  | Panic s => Panic s
+  end.
+
 (* ------------------------------------------------------------------ harness interface *)
 (* association list replay of a logged block function / hash *)
 Fixpoint assoc_bytes (log : list (bytes * bytes)) (x : bytes) : bytes :=
